@@ -132,7 +132,13 @@ func newWorld(env *core.Env, p *core.Plan) (*world, error) {
 		maturity = 1
 	}
 	genesis := time.Now().Add(-30 * 24 * time.Hour)
-	x.node = simchain.NewNode(&chaincfg.RegressionNetParams, genesis, maturity)
+	base := &chaincfg.RegressionNetParams
+	if p.C("simnet", 0) == 1 {
+		// account import only accepts extended keys on networks that define
+		// the SLIP-0132 versions; simnet is the development network that does
+		base = &chaincfg.SimNetParams
+	}
+	x.node = simchain.NewNode(base, genesis, maturity)
 	x.params = x.node.Params
 	x.birthday = genesis
 	root, err := hdkeychain.NewMaster(x.seed, x.params)
